@@ -73,11 +73,14 @@ def check_C01(run):
     import fam_struct
     rsumm, rscen, robs = fam_rules.pipeline(run, "VAL")
     ssumm, sobs = fam_struct.pipeline(run)
-    n += rsumm.get("generated", 0) + ssumm.get("generated", 0)
-    d += rsumm.get("generated", 0) + ssumm.get("generated", 0)
+    # the three output formats: compiles, the declared API exists in the format's shape and computes the conversion
+    import fam_formats
+    fsumm, fobs = fam_formats.pipeline(run)
+    n += rsumm.get("generated", 0) + ssumm.get("generated", 0) + fsumm.get("generated", 0)
+    d += rsumm.get("generated", 0) + ssumm.get("generated", 0) + fsumm.get("generated", 0)
     run.assumptions = ASSUME + ["Go's type checker is the observation (not re-specified); the spec contributes the generator-controlled causes (stale call edges, import alias shadowing)"]
     return run.finish("every replayed program of the calls family generated by the real tool, written, compiled per program and asserted to implement the declared interface; "
-                      "plus every generating scenario of the rules value universe and of the struct family, each compiled in a file of its own; distinct = distinct (program, directory name, outcome)", n, d)
+                      "plus every generating scenario of the rules value universe and of the struct family, each compiled in a file of its own; plus 108 programs over the output formats struct / function / variables (API assertion in the format's shape, executed); distinct = distinct (program, directory name, outcome)", n, d)
 
 
 def check_C06(run):
